@@ -191,20 +191,73 @@ Definition count_bytes (dl : dlen) (n : Z) : list Z :=
   | _ => be 4 n
   end.
 
+(* the count that makes an unguarded collection misbehave *)
+Definition attack_count (cfg : pcfg) (k : akind) : Z :=
+  if can_null (ak_dlen k) && negb (beh_ok (ak_null k)) then -1
+  else if can_neg cfg (ak_dlen k) && negb (beh_ok (ak_neg k)) then -2
+  else 2 ^ 31 - 1.
+
 (* (bytes, reached) *)
-Fixpoint witness (f : fmt) (v : Z) (site : string) (cnt : Z) : list Z * bool :=
+Fixpoint witness (cfg : pcfg) (f : fmt) (v : Z) (site : string) : list Z * bool :=
   match f with
   | FNil | FSetVer _ | FSetConst _ _ => ([], false)
   | FSeq a b =>
-      let '(ba, ra) := witness a v site cnt in
-      if ra then (ba, true) else let '(bb, rb) := witness b v site cnt in (ba ++ bb, rb)
-  | FGate c a b => if veval c v then witness a v site cnt else witness b v site cnt
+      let '(ba, ra) := witness cfg a v site in
+      if ra then (ba, true) else let '(bb, rb) := witness cfg b v site in (ba ++ bb, rb)
+  | FGate c a b => if veval c v then witness cfg a v site else witness cfg b v site
   | FPrim p _ _ | FConst p _ => (min_prim p, false)
   | FTag => ([0], false)
   | FArr l k _ _ e =>
-      if String.eqb l site then (count_bytes (ak_dlen k) cnt, true)
+      if String.eqb l site then (count_bytes (ak_dlen k) (attack_count cfg k), true)
       else
-        let '(be_, re) := witness e v site cnt in
+        let '(be_, re) := witness cfg e v site in
         if re then (count_bytes (ak_dlen k) 1 ++ be_, true)
         else (count_bytes (ak_dlen k) 0, false)
+  end.
+
+Fixpoint dedup (l : list string) : list string :=
+  match l with
+  | [] => []
+  | s :: r => if existsb (String.eqb s) r then dedup r else s :: dedup r
+  end.
+
+(* first version of the row at which the site is reached *)
+Fixpoint first_reach (cfg : pcfg) (fd : fmt) (site : string) (vs : list Z) : option (Z * list Z) :=
+  match vs with
+  | [] => None
+  | v :: r => let '(bs, ok) := witness cfg fd v site in if ok then Some (v, bs) else first_reach cfg fd site r
+  end.
+
+Fixpoint rows_from (i : nat) (tbl : list row) : list (nat * row) :=
+  match tbl with [] => [] | r :: t => (i, r) :: rows_from (S i) t end.
+
+(* decoders of data the client does not control *)
+Definition scope_sites (cfg : pcfg) (tbl : list row) : list string :=
+  dedup (flat_map (fun r => if r_untrusted r then match r_dec r with Some fd => unguarded_sites cfg fd | None => [] end else []) tbl).
+
+(* (site, row index :: version :: witness bytes) for every unguarded site of the decoders in scope *)
+Definition site_witnesses (cfg : pcfg) (tbl : list row) : list (string * list Z) :=
+  flat_map (fun ir =>
+    let '(i, r) := ir in
+    if r_untrusted r then
+      match r_dec r with
+      | Some fd =>
+          flat_map (fun s => match first_reach cfg fd s (versions r) with
+                             | Some (v, bs) => [(s, Z.of_nat i :: v :: bs)]
+                             | None => []
+                             end) (dedup (unguarded_sites cfg fd))
+      | None => []
+      end
+    else []) (rows_from 0 tbl).
+
+(* the model's verdict on a witness: 2 panic, 3 allocation above the cap *)
+Definition witness_class (cfg : pcfg) (cap : Z) (tbl : list row) (w : string * list Z) : Z :=
+  match snd w with
+  | i :: v :: bs =>
+      let r := nth (Z.to_nat i) tbl dummy_row in
+      match r_dec r with
+      | Some fd => class_of (dec_top cfg (Some cap) fd v (r_zero r) bs)
+      | None => -1
+      end
+  | _ => -1
   end.
